@@ -65,6 +65,29 @@ def _discover():
     return name, var, ok
 
 
+def converter_names(cm):
+    """local names of a client module that are bound to the converter function (`from ...omml_to_latex import omml_to_latex
+    [as x]`), read from the module's import statements; the plain name is always included (an un-aliased import, a re-export)"""
+    mod_dotted = OMML[:-3].replace("/", ".")
+    tail = mod_dotted.split(".")[-1] + ".omml_to_latex"
+    names = {"omml_to_latex"}
+    try:
+        for local, origin in cm.imports.items():
+            if origin == mod_dotted + ".omml_to_latex" or origin.endswith("." + tail) or origin == tail:
+                names.add(local)
+    except Exception:  # noqa
+        pass
+    return names
+
+
+def converter_calls(cm, node):
+    """the calls of the converter inside `node`: by any local name bound to it, or as an attribute `<module>.omml_to_latex`"""
+    names = converter_names(cm)
+    return [n for n in ast.walk(node) if isinstance(n, ast.Call) and (
+        (isinstance(n.func, ast.Name) and n.func.id in names) or
+        (isinstance(n.func, ast.Attribute) and n.func.attr == "omml_to_latex"))]
+
+
 PE_NAME, PENDING, STATE_MODEL = _discover()          # PENDING: the closure variable holding the closer a malformed radical waits for
 PE = f"{OMML}::omml_to_latex.<locals>.{PE_NAME}"
 PE_OID = "omml_to_latex.<locals>.process_element"      # stable obligation ids whatever the nested function is called
@@ -1518,8 +1541,9 @@ def tables(repo, tier):
         for q, f in cm.functions.items():
             if ".<locals>." in q:
                 continue
+            conv_calls = converter_calls(cm, f)
             for n in ast.walk(f):
-                if isinstance(n, ast.Call) and dotted(n.func).split(".")[-1] == "omml_to_latex":
+                if isinstance(n, ast.Call) and n in conv_calls:
                     sites.append((q, f, n))
         ok_all, why = bool(sites), []
         from contracts import C19_sites as _S
